@@ -10,6 +10,16 @@ for p in sorted((V / "findings").glob("*.json")):
         if k not in seen:
             seen.add(k)
             out.append(e)
+# fixed entries: attach the /repo commit of the repair (fixes/COMMITS.json, keyed by diff name)
+import re
+cpath = V / "fixes" / "COMMITS.json"
+commits = json.load(open(cpath)) if cpath.exists() else {}
+for e in out:
+    if e.get("status") == "fixed" and not e.get("commit"):
+        text = json.dumps(e)
+        hits = [commits[n]["commit"] for n in re.findall(r"(C\d+-[A-Za-z0-9_.-]+?\.diff)", text) if commits.get(n)]
+        if hits:
+            e["commit"] = hits[0] if len(set(hits)) == 1 else sorted(set(hits))
 out.sort(key=lambda e: (e.get("property", ""), e.get("signature", "")))
 json.dump({"comment": "known = genuine defect recorded, not repaired (suppresses exactly this signature); "
                       "fixed = repaired by the named fix: commit in /repo (suppresses nothing)",
